@@ -298,7 +298,9 @@ def tc_ensures(s):
 
 def tc_result(ctx, s):
     H, W = s.self.fields["input_shape"]
-    return (ctx.fresh_arr("xa", (H, W), "real"), ctx.fresh_arr("ya", (H, W), "real"))
+    res = (ctx.fresh_arr("xa", (H, W), "real"), ctx.fresh_arr("ya", (H, W), "real"))
+    ctx.ghost.setdefault("transform_coordinates_results", []).append(res)  # ghost: lets a caller's contract name these coordinates
+    return res
 
 
 def tc_loop_inv(s):
@@ -399,6 +401,8 @@ def kde_result(ctx, s):
         return img
     wts = ctx.fresh_arr("kde_weights", (rows, cols), "real")
     cm.set_total(wts, cm.FormalSum(ctx.fresh("kde_weights_total", "real")))
+    # ghost: the points were splatted at (row coordinate xa, column coordinate ya) holding `values`
+    img._splat = wts._splat = NS(xa=s.xa, ya=s.ya, values=s.values, kde_sigma=s.kde_sigma, pad_value=s.pad_value)
     return (img, wts)
 
 
@@ -463,7 +467,20 @@ def wi_ensures(s):
     S1, S2 = o.fields["output_shape"]
     img, wts = res
     tot = total_term(wts)
-    return [
+    flow = []
+    sp, sp2 = getattr(wts, "_splat", None), getattr(img, "_splat", None)
+    tcr = s.ctx.ghost.get("transform_coordinates_results", [])
+    if s.mode == "verify":
+        # data flow: pixel (r, c) of `image` is splatted at row coordinate xa[r,c] / column coordinate ya[r,c] of transform_coordinates(knots)
+        ok = sp is not None and sp is sp2 and len(tcr) == 1 and all(isinstance(a, SymArr) and a.ndim == 2 for a in (sp.xa, sp.ya, sp.values))
+        r, c = I("r"), I("c")
+        inr = AND(r >= 0, r < lift(H), c >= 0, c < lift(W))
+        flow = [("pixel(r,c)-is-splatted-at-(xa[r,c],ya[r,c])-of-transform_coordinates", False if not ok else AND(
+                    lift(sp.xa.shape[0]) == lift(H), lift(sp.xa.shape[1]) == lift(W),
+                    forall([r, c], implies(inr, AND(rterm(sp.xa.fn(r, c)) == rterm(tcr[0][0].fn(r, c)), rterm(sp.ya.fn(r, c)) == rterm(tcr[0][1].fn(r, c)),
+                                                    rterm(sp.values.fn(r, c)) == rterm(s.image.fn(r, c))))))),
+                ("kde-width-and-pad-value-are-the-interpolator's", False if not ok else AND(rterm(sp.kde_sigma) == rterm(o.fields["kde_sigma"]), rterm(sp.pad_value) == rterm(o.fields["pad_value"])))]
+    return flow + [
         ("image-on-the-canvas", AND(lift(img.shape[0]) == lift(S1), lift(img.shape[1]) == lift(S2))),
         ("weights-on-the-canvas", AND(lift(wts.shape[0]) == lift(S1), lift(wts.shape[1]) == lift(S2))),
         ("weight-map-sums-to-the-number-of-image-pixels", False if tot is None else tot == R_(lift(H) * lift(W))),
@@ -790,6 +807,18 @@ def rt_geometry(inp):
                 kinds.add(f"coords-{nm}")
                 err = float(np.abs(np.asarray(arr) - want).max()) if np.shape(arr) == (H, W) else float("nan")
                 notes.append(f"image {a}: {nm}a deviates from centre+rotated offset by up to {err:.4g} px")
+        # placement: a single bright pixel lands (weighted centroid, sigma=0) at the property's position
+        r0, c0 = H // 2, max(W // 2 - 1, 0)
+        delta = np.zeros((H, W))
+        delta[r0, c0] = 1.0
+        dimg, dw = d.interpolator[a].warp_image(delta, kn, kde_sigma=0.0, pad_value=0.0)
+        m = np.asarray(dimg, float) * np.minimum(np.asarray(dw, float), 1e3)
+        tgt = (_np_position(centre, fast, slow, H, W, 0)[r0, c0], _np_position(centre, fast, slow, H, W, 1)[r0, c0])
+        if m.sum() > 0 and 0 <= tgt[0] <= S[1] - 2 and 0 <= tgt[1] <= S[2] - 2:
+            got = (float((m.sum(axis=1) * np.arange(S[1])).sum() / m.sum()), float((m.sum(axis=0) * np.arange(S[2])).sum() / m.sum()))
+            if abs(got[0] - tgt[0]) > 0.02 or abs(got[1] - tgt[1]) > 0.02:
+                kinds.add("placement")
+                notes.append(f"image {a}: pixel ({r0},{c0}) lands at ({got[0]:.3f},{got[1]:.3f}), property says ({tgt[0]:.3f},{tgt[1]:.3f})")
         wsum = float(np.asarray(d.weights_warped.array[a], float).sum())
         if abs(wsum - H * W) > 2e-4 * H * W + 1e-3:
             kinds.add("weights")
@@ -800,7 +829,7 @@ def rt_geometry(inp):
 
 def klass_geometry(inp, res):
     kinds = res.get("kinds", [])
-    if kinds == ["coords-x"] and inp["K"] == 1 and inp["H"] != inp["W"]:
+    if kinds in (["coords-x"], ["coords-x", "placement"]) and inp["K"] == 1 and inp["H"] != inp["W"]:
         return "coords-x/1-knot/non-square-image"
     return "+".join(kinds) + f"/K={inp['K']}"
 
@@ -1027,6 +1056,21 @@ def fam_models(tier="quick", seed=0):
         yield dict(what="bincount", n=n, L=max(dims), dims=list(dims), seed=seed + i)
     for i, (a, b, n) in enumerate([(0.0, 1.0, 1), (0.0, 1.0, 2), (0.0, 1.0, 4), (-7.5, 7.5, 16), (-1.5, 1.5, 3), (0.0, 0.0, 5)]):
         yield dict(what="linspace", a=a, b=b, n=n, seed=seed + i)
+
+
+def _guard(rt):
+    def wrapped(inp):
+        try:
+            return rt(inp)
+        except Exception as e:  # noqa: BLE001 - the real function raised on an input inside the contract's precondition
+            return dict(violated=True, kinds=["raises"], observed=f"raised {type(e).__name__}: {str(e)[:200]}", expected="no exception")
+
+    wrapped.__name__ = rt.__name__
+    wrapped.__doc__ = rt.__doc__
+    return wrapped
+
+
+rt_geometry, rt_rows, rt_weights, rt_align = _guard(rt_geometry), _guard(rt_rows), _guard(rt_weights), _guard(rt_align)
 
 
 def _knots_from_model(ev):
